@@ -19,7 +19,13 @@ import (
 
 // Exit codes: 0 held; 1 violation (VIOLATION line printed); 2 harness/build/watchdog trouble.
 
-const verifDir = "/verif"
+// verifDir is where evidence/, replays/ and known_findings.json live (run.sh exports VERIF_DIR = its own directory).
+var verifDir = func() string {
+	if d := os.Getenv("VERIF_DIR"); d != "" {
+		return d
+	}
+	return "/verif"
+}()
 
 type wireMsg struct {
 	T     string          `json:"t"` // S start, R result, D done, M memory abort
